@@ -17,3 +17,5 @@ open Biogo.Properties.C03_feat
 #print axioms gff_rejects_bad_strand
 #print axioms gff_rejects_incomplete_metaline
 #print axioms source_guards_as_modelled
+#print axioms date_parse_format
+#print axioms date_layout_examples
